@@ -21,6 +21,10 @@ import traceback
 from collections import Counter
 
 HERE = os.path.dirname(os.path.dirname(os.path.abspath(__file__)))
+try:
+    sys.set_int_max_str_digits(0)      # results such as the uint of a megabit bitstring must be printable in messages
+except AttributeError:
+    pass
 REPO = os.path.realpath(os.environ.get('VF_REPO', '/repo'))
 
 
